@@ -211,3 +211,146 @@ def param_origins(F, fid, pidx, _seen=None):
 
 CLOCKS = r'^(std::time::SystemTime::now|std::time::Instant::now|chrono::Utc::now|chrono::Local::now|chrono::offset::\w+::now)$'
 NONDET = r'^(rand::|rand_core::|std::env::|std::fs::|std::thread::|std::process::|std::net::(TcpStream|UdpSocket|TcpListener)|std::os::|getrandom::|std::hash::RandomState::new|std::collections::hash_map::RandomState::new|std::ptr::.*addr|core::ptr::.*addr)'
+
+
+# ---------------------------------------------------------------------------------------
+# P4 with value-numbered predicates: path-sensitive simulation that remembers the outcome of
+# tests on stable expressions, so correlated tests prune infeasible paths.
+def _stable(e):
+    for x in walk(e):
+        if not isinstance(x, tuple) or not x:
+            continue
+        if x[0] in ('phi', 'modby', 'cyc', 'uninit', 'partial', '?', '?rv', '?promoted'):
+            return False
+        if x[0] == 'call' and x[3] is not None:
+            return False
+    return True
+
+
+def _norm_key(k):
+    k = peel(k, unwraps=False)
+    if isinstance(k, tuple) and k[0] == 'field' and k[2] == '0' and isinstance(k[1], tuple) and k[1][0] == 'call':
+        return peel(k[1], unwraps=False)      # newtype scalar
+    return k
+
+
+def edge_fact(d, v, vals):
+    """Facts established on a switch edge: list of (key, rel, const) with rel '==' / '!='."""
+    neg = False
+    while isinstance(d, tuple) and d[0] == 'un' and d[1] == 'Not':
+        d = d[2]
+        neg = not neg
+    # comparison with a constant -> fact about the other side
+    cmpop = None
+    if isinstance(d, tuple) and d[0] == 'bin' and d[1] in ('Eq', 'Ne'):
+        a, b = d[2], d[3]
+        cmpop = d[1]
+    elif isinstance(d, tuple) and d[0] == 'call' and d[1] in ('std::cmp::PartialEq::eq', 'std::cmp::PartialEq::ne') and len(d[2]) == 2:
+        a, b = d[2]
+        cmpop = 'Eq' if d[1].endswith('::eq') else 'Ne'
+    if cmpop:
+        ca, cb = const_val(a), const_val(b)
+        if cb is None and ca is not None:
+            a, b, ca, cb = b, a, cb, ca
+        if cb is not None and ca is None:
+            key = _norm_key(a)
+            if v is None:
+                # otherwise edge of a bool switch
+                if vals == [0]:
+                    truth = True
+                elif vals == [1]:
+                    truth = False
+                else:
+                    return []
+            else:
+                truth = (v != 0)
+            if neg:
+                truth = not truth
+            eq = (cmpop == 'Eq') == truth
+            return [(key, '==' if eq else '!=', cb)]
+    key = _norm_key(d)
+    if v is not None:
+        val = v
+        if neg and v in (0, 1):
+            val = 1 - v
+        return [(key, '==', val)]
+    out = []
+    if neg and vals in ([0], [1]):
+        return [(key, '==', vals[0])]
+    if vals == [0] and not neg:
+        # bool: otherwise of [0] is true  (also holds for discriminants with two variants: handled by caller if needed)
+        return [(key, '!=', 0)]
+    for x in vals:
+        out.append((key, '!=', x))
+    return out
+
+
+def consistent(facts, new):
+    k, rel, c = new
+    for (k2, r2, c2) in facts:
+        if k2 != k:
+            continue
+        if rel == '==' and r2 == '==' and c2 != c:
+            return False
+        if rel == '==' and r2 == '!=' and c2 == c:
+            return False
+        if rel == '!=' and r2 == '==' and c2 == c:
+            return False
+    return True
+
+
+def some_points(f):
+    """Blocks in which a reply is materialised: `X = Option::Some{..}` with X of the function's reply Option type."""
+    rty = f.locals[0]['ty']
+    if rty.startswith('('):
+        # tuple: first component
+        depth = 0
+        for i, ch in enumerate(rty):
+            if ch in '<([':
+                depth += 1
+            elif ch in '>)]':
+                depth -= 1
+            elif ch == ',' and depth == 1:
+                rty = rty[1:i]
+                break
+    out = []
+    for bi, b in enumerate(f.blocks):
+        if b['cleanup']:
+            continue
+        for s in b['stmts']:
+            rv = s['rv']
+            if rv['k'] == 'agg' and rv.get('adt') == 'std::option::Option' and rv.get('variant') == 'Some' and not s['lhs']['p']:
+                if f.locals[s['lhs']['l']]['ty'] == rty:
+                    out.append(bi)
+    return sorted(set(out))
+
+
+def is_none_fact(facts, key):
+    return (key, '!=', 1) in facts or (key, '==', 0) in facts
+
+
+def fact_sim(f, track, init_flags=frozenset(), on_call=None, on_edge_flags=None):
+    """Simulate f with states (flags, facts). `track(key)` selects which stable test keys are remembered.
+    on_call(bi, term, flags) -> flags ; on_edge_flags(bi, succ, facts_on_edge, flags) -> flags.
+    Returns (states_at_block_entry, exits)."""
+    def on_term(bi, t, st):
+        flags, facts = st
+        if t['k'] == 'call' and on_call:
+            flags = on_call(bi, t, flags)
+        return (flags, facts)
+
+    def on_edge(bi, s, v, d, vals, st):
+        flags, facts = st
+        efs = edge_fact(d, v, vals)
+        newfacts = set(facts)
+        for ef in efs:
+            if not _stable(ef[0]) or not track(ef[0]):
+                continue
+            if not consistent(newfacts, ef):
+                return None
+            newfacts.add(ef)
+        if on_edge_flags:
+            flags = on_edge_flags(bi, s, efs, flags)
+        return (flags, frozenset(newfacts))
+
+    return f.simulate((init_flags, frozenset()), on_term=on_term, on_edge=on_edge)
